@@ -11,53 +11,52 @@ From PV Require Import PyLib LabelGen LabelGenEquiv.
 Import ListNotations.
 Open Scope Qc_scope.
 
-(* The full-strength statement.  It is FALSE of the faithful model of the code as it is (C01_refuted_D3 below). *)
+(* The full-strength statement about the mechanism model. *)
 Definition C01_full_statement : Prop :=
   forall n, wf n = true -> forall st pa v, deriv_impl n st pa v = deriv n st pa v.
 
-(* What is proved: under the guards, for every network (any number of nodes, operators, edges, parallel edges, self loops,
-   hierarchy levels), every state vector, every parameter assignment and every variable, the mechanism model computes the
-   Spec's derivative.  `_partial` for two reasons:
-   (1) guards: guard_d3 is needed by the proof (merge keyed by source node only); guard_names / guard_labels / guard_parser
-       delimit where the MODEL is faithful — it does not model clashes between generated names (`weight`, `x_in0`, `a_v1`) and
-       user names, which make the real code raise or compute something else (D22 and relatives), nor the compile-time crash of
-       the expression parser on a sum-substituted input of degree >= 3;
-   (2) pipeline: the composition covers grouping, merging, the matrix / indexed forms, the multi-source sum, the wiring of
-       producers and edge operator and the recursive evaluation of algebraic variables; separately proved: hierarchy
-       flattening (the C01_hierarchy theorems), the evaluation order of _sort_var_updates (C01_sort_topological,
-       C01_sorted_run_solves: the sorted flat program solves the algebraic equations; that this solution is the recursive
-       `value` is not yet a theorem), unique labels (C01_names).  NOT covered by a theorem: the textual rewrite of whole
-       equations through sympy (only its algebraic effect, C01_substitute_input_term) and code printing.  Those are
-       exercised by the correspondence run only. *)
-Theorem C01_partial : forall n, wf n = true -> guard n = true ->
+(* HEADLINE.  For every network (any number of nodes, operators, edges, parallel edges, self loops, hierarchy levels, several
+   variables of one node feeding one target), every state vector, every parameter assignment and every variable, the mechanism
+   model computes the Spec's derivative.  The guard consists only of guard_names / guard_labels / guard_parser: they are not
+   needed by the proof (C01_model_full below has no guard) but delimit where the MODEL is faithful to the code — it does not
+   describe clashes between generated names (`weight`, `x_in0`, `a_v1`) and user names, which make the real code raise or
+   compute something else (findings C01-D22, C01-D22b), nor the compile-time crash of the expression parser on a
+   sum-substituted input of degree >= 3 (C01-P1).
+   Pipeline coverage: grouping, merging, matrix / indexed forms, multi-source sum, wiring of producers and edge operator,
+   recursive evaluation of algebraic variables; separately proved: hierarchy flattening (the C01_hierarchy theorems), the
+   evaluation order of _sort_var_updates (C01_sort_topological, C01_sorted_run_solves; that this solution is the recursive
+   `value` is not yet a theorem), unique labels (C01_names).  NOT covered by a theorem: the textual rewrite of whole equations
+   through sympy (only its algebraic effect, C01_substitute_input_term) and code printing — exercised by the correspondence
+   run only. *)
+Theorem C01_full : forall n, wf n = true -> guard n = true ->
   forall st pa v, deriv_impl n st pa v = deriv n st pa v.
-Proof.
-  exact (fun n _ Hg => deriv_impl_is_deriv n (proj1 (andb_prop _ _ (proj1 (andb_prop _ _ (proj1 (andb_prop _ _ Hg))))))).
-Qed.
-Print Assumptions C01_partial.
+Proof. exact (fun n _ _ => deriv_impl_full n). Qed.
+Print Assumptions C01_full.
+
+Theorem C01_model_full : C01_full_statement.
+Proof. exact (fun n _ => deriv_impl_full n). Qed.
+Print Assumptions C01_model_full.
 
 (* the same for every variable (algebraic variables and inputs included), not only derivatives *)
-Theorem C01_partial_values : forall n, guard_d3 n = true -> forall st pa v, value_impl n st pa v = value n st pa v.
-Proof. exact value_impl_is_value. Qed.
-Print Assumptions C01_partial_values.
+Theorem C01_full_values : forall n st pa v, value_impl n st pa v = value n st pa v.
+Proof. exact value_impl_full. Qed.
+Print Assumptions C01_full_values.
 
 (* the input-variable layer on its own: for ANY valuation sv of the sources *)
-Theorem C01_input_layer : forall n, guard_d3 n = true ->
-  forall pa sv v prods, input_impl n pa sv v prods = input_spec n pa sv v prods.
-Proof. exact input_impl_is_spec. Qed.
+Theorem C01_input_layer : forall n pa sv v prods, input_impl n pa sv v prods = input_spec n pa sv v prods.
+Proof. exact input_impl_full. Qed.
 Print Assumptions C01_input_layer.
 
-(* D3: two different variables of ONE source node projecting to the same target variable: only the first variable is
-   used, with the sum of both weights.  Witness replayed on the real code: corpus/C01/d3_witness.json (13/8 vs 17/8). *)
-Theorem C01_refuted_D3 : fixed_D3 = false -> exists n st pa v, wf n = true /\ guard_names n = true /\ guard_labels n = true /\
+(* BEFORE fix D59 (model switch Edges.fixed_D3 = false: _collect_from_edges keyed by the source node only) the full statement
+   was false: two different variables of ONE source node projecting to the same target variable delivered (w1+w2) * first
+   variable.  The witness (13/8 vs 17/8 on the unrepaired code) is now the regression case corpus/C01/d3_witness.json. *)
+Theorem C01_before_fix_D59 : fixed_D3 = false -> exists n st pa v, wf n = true /\ guard_names n = true /\ guard_labels n = true /\
   deriv_impl n st pa v <> deriv n st pa v.
 Proof. exact d3_refutes. Qed.
-Print Assumptions C01_refuted_D3.
+Print Assumptions C01_before_fix_D59.
 
-(* The repair of D3 (/verif/fixes/proposed_fix_C01_D3.diff: _collect_from_edges keyed by source node AND source variable) is
-   the model switch `Edges.fixed_D3`.  Once it is `true` the D3 guard holds of every network and the full statement is a
-   theorem of the mechanism model; what then remains between C01_full_statement and the real code are the name-clash /
-   parser classes (guard_names, guard_labels, guard_parser), which the model does not describe. *)
+(* the repair, generically in the switch: with the merge keyed by (source node, source variable) the D3 guard holds of every
+   network and the full statement follows *)
 Theorem C01_full_when_D3_fixed : fixed_D3 = true -> C01_full_statement.
 Proof. exact (fun Hfix n _ => full_when_fixed Hfix n). Qed.
 Print Assumptions C01_full_when_D3_fixed.
